@@ -1212,6 +1212,21 @@ pub fn nested_pair(depth: usize, variant: u8) -> (Value, Value) {
     }
 }
 
+/// A control character / quote / backslash <-> the two (six) characters of its escape spelling: what a writer
+/// that escapes too little, or a reader that unescapes too much, folds onto one another.
+pub fn escape_respellings(s: &str) -> Vec<String> {
+    let mut v = vec![];
+    for (ch, esc) in [('\t', "\\t"), ('\n', "\\n"), ('\r', "\\r"), ('\u{8}', "\\b"), ('\u{c}', "\\f"), ('\u{1}', "\\u0001"), ('\u{1f}', "\\u001f"), ('"', "\\\""), ('\\', "\\\\")] {
+        if s.contains(ch) {
+            v.push(s.replacen(ch, esc, 1));
+        }
+        if s.contains(esc) {
+            v.push(s.replacen(esc, &ch.to_string(), 1));
+        }
+    }
+    v
+}
+
 pub fn near_collisions(s: &str) -> Vec<String> {
     let mut v = vec![];
     // spellings a path normaliser would not tell apart
@@ -1238,6 +1253,7 @@ pub fn near_collisions(s: &str) -> Vec<String> {
     if s.contains("\\n") {
         v.push(s.replacen("\\n", "\n", 1));
     }
+    v.extend(escape_respellings(s));
     v.push(format!("{s}\n"));
     // line endings: LF <-> CRLF <-> CR
     v.push(format!("{s}\r\n"));
